@@ -13,6 +13,9 @@ from vf.symx import SymInt
 def bv_of_const(arg, size):
     if isinstance(arg, SymInt):
         # value taken modulo 2^size (two's complement of the exact python int)
+        if arg.lo >= 0 and arg.w - 1 < size and arg.w > 1:
+            # non-negative: the sign bit of the exact representation is 0 -- expose the zero bits
+            return z3.ZeroExt(size - (arg.w - 1), z3.Extract(arg.w - 2, 0, arg.z))
         if arg.w > size:
             return z3.Extract(size - 1, 0, arg.z)
         if arg.w < size:
